@@ -1555,6 +1555,53 @@ func lex4(c *Ctx) {
 			c.Check(!free, key+":delimited", cv.Pos(), "after a short option name the scan resumes only if the next byte is not '-' (or the input ends)",
 				"after this short option token the scan can resume without testing that the next byte is not '-': `-a-b` would be accepted")
 		}
+		// options: what follows the leading '-' decides the kind: a second '-' for `--` and long names, a
+		// letter for short names and folded groups. The byte tested is a later one than the byte that
+		// selected the case.
+		{
+			isDash, isLetterKind := len(kinds) > 0, len(kinds) > 0
+			for _, k := range kinds {
+				if k != "DblDash" && k != "LongOpt" {
+					isDash = false
+				}
+				if k != "ShortOpt" && k != "OptSeq" {
+					isLetterKind = false
+				}
+			}
+			laterByte := func(v ssa.Value) bool {
+				ix, isIx := v.(*ssa.Index)
+				if !isIx || !m.isUsage(ix.X) {
+					return false
+				}
+				return m.isPosLoad(ix.Index) && !iterationStart(ix.Index)
+			}
+			if isDash || isLetterKind {
+				okSecond := false
+				ir.Instrs(fn, func(in ssa.Instruction) {
+					switch x := in.(type) {
+					case *ssa.BinOp:
+						if isDash && (x.Op == token.EQL || x.Op == token.NEQ) && laterByte(x.X) {
+							if k, isK := ir.ConstInt(x.Y); isK && k == '-' && ir.HoldsAt(x, x.Op == token.EQL, cv.Block()) {
+								okSecond = true
+							}
+						}
+					case *ssa.Call:
+						if isLetterKind && len(x.Call.Args) == 1 && laterByte(x.Call.Args[0]) && ir.HoldsAt(x, true, cv.Block()) {
+							if g := ir.Static(x); g != nil {
+								if cl, okC := byteClass(g); okC && cl == "A-Za-z" {
+									okSecond = true
+								}
+							}
+						}
+					}
+				})
+				what, bad := "a second '-'", "this token is emitted without the byte after the leading '-' having been found to be '-': `-1` or `-=` could be read as `--`"
+				if isLetterKind {
+					what, bad = "a letter", "this token is emitted without the byte after the leading '-' having been found to be a letter"
+				}
+				c.Check(okSecond, key+":second-byte", cv.Pos(), "emitted only after the byte behind the leading '-' was found to be "+what, bad)
+			}
+		}
 		// `=<text>`: the text is free: in the case selected by '=' the bytes of the input are tested
 		// against '<' and '>' only (no character class decides where the annotation ends)
 		isOptValue := false
